@@ -5,12 +5,14 @@ The abstraction keeps exactly what the models of the phased-VCF writer and of th
 at, and keeps everything else as *opaque tokens* = the raw column / field text of the file, so that an
 equality of abstract records evaluated in Coq is a raw-text equality of all untouched columns.
 
-    f = parse_vcf(path)                 # AbsVcf: .header (AbsHeader), .samples, .records [AbsRecord]
+    f = parse_vcf(path)                 # AbsVcf: .header (AbsHeader), .samples, .records [AbsRecord],
+                                        #         .nul_bytes (count of NUL bytes found -- and replaced -- in the file)
     it = Interner()                     # text -> integer tokens (shared by everything put in one Coq case)
     rec_term(r, it)                     # Coq term of type VcfRecord.vrec
     recs_term(f.records, it)            # Coq list
     header_term(f.header, it)           # Coq term of type VcfRecord.header
     body_use(f)                         # what missing_headers() sees in the body (contigs, FORMATs, INFOs)
+    end_declared(f); cfg_term(tag, only_snvs, mav, end_decl); target_term(i, superreads, components)
     VcfText(samples, header_lines).add(...).write(path)   # small writer for generated inputs
 
 Per-sample call (AbsCall):
